@@ -991,13 +991,13 @@ func Run(c *corr.Ctx) {
 		runCorpus(c)
 		sweepPolicy(c)
 		allAdmit(c)
-		for i := 0; i < c.N(3000, 60000); i++ {
+		for i := 0; i < c.N(6000, 60000); i++ {
 			genM2C(c, i)
 		}
-		for i := 0; i < c.N(1500, 30000); i++ {
+		for i := 0; i < c.N(3000, 30000); i++ {
 			genC2M(c, i)
 		}
-		for i := 0; i < c.N(600, 12000); i++ {
+		for i := 0; i < c.N(1200, 12000); i++ {
 			genPipe(c, i)
 		}
 	}
